@@ -44,6 +44,8 @@ pub mod dial {
         prefer_ipv6: bool,
     ) -> Result<TcpStream, DialError> {
         crate::client::verif_dial_happy_eyeballs(dns_resolver, url, prefer_ipv6).await
+    }
+}
 
 /// Wrappers around the crate-private relay protocol codec (property C10).
 pub mod codec {
